@@ -186,7 +186,46 @@ class Chain2AggFirst(Chain2):
   agg_offset = 100
 
 
-SUBJECTS = [Raw(), Runner(), RunnerInPlace(), RunnerMean(), Chain2(), Chain2AggFirst()]
+class RunnerSliced(Runner):
+  """A sliced aggregate: the checkpoint carries one aggregate state per slice value (MetricKey(metric, SliceKey))."""
+  name = 'runner-sliced'
+
+  def build(self, n, kind, chain):
+    from ml_metrics._src.chainables import transform
+    from harness import lib
+    p = (transform.TreeTransform.new(name='s')
+         .data_source(_source(n, kind, chain))
+         .apply(fn=lib.vpar, output_keys=('v', 'par'))
+         .aggregate(fn=lib.CollectRows(), input_keys='v', output_keys='all')
+         .add_slice('par'))
+    return p.make().iterate()
+
+  def project(self, got):
+    return got['v'][0]
+
+  def final_check(self, it, full):
+    from ml_metrics._src.chainables import transform
+    res = it.agg_result
+    got = {}
+    for k, v in (dict(res) if res is not None else {}).items():
+      if isinstance(k, transform.MetricKey):
+        got[(k.metrics, tuple(int(x) for x in k.slice.values))] = [int(x) for x in v]
+      else:
+        got[(k, ())] = [int(x) for x in v]
+    got = {k: v for k, v in got.items() if v}      # an empty stream: no rows anywhere, whatever keys are reported
+    want = {}
+    if full:
+      want[('all', ())] = [x + 100 for x in full]
+      for par in (0, 1):
+        rows = [x + 100 for x in full if x % 2 == par]
+        if rows:
+          want[('all', (par,))] = rows
+    if got != want:
+      return f'final sliced aggregate {got!r} != uninterrupted {want!r}'
+    return None
+
+
+SUBJECTS = [Raw(), Runner(), RunnerInPlace(), RunnerMean(), Chain2(), Chain2AggFirst(), RunnerSliced()]
 
 
 def _replay(chk, h, subj):
@@ -204,6 +243,8 @@ def _replay(chk, h, subj):
       if op['op'] == 'next':
         try:
           got = next(it)
+          if hasattr(subj, 'project'):
+            got = subj.project(got)
           if hasattr(got, '__array__'):
             got = int(got[0])
         except StopIteration:
@@ -226,7 +267,7 @@ def _replay(chk, h, subj):
       return False
   # drain: what is left must be exactly the rest of the uninterrupted run
   try:
-    rest = [int(x[0]) if hasattr(x, '__array__') else x for x in it]
+    rest = [subj.project(x) if hasattr(subj, 'project') else int(x[0]) if hasattr(x, '__array__') else x for x in it]
   except Exception as e:  # pylint: disable=broad-exception-caught
     chk.violation(f'{subj.name}:{kind}:drain:{type(e).__name__}', repr(e), ctx)
     return False
@@ -348,8 +389,70 @@ def threaded_part(chk):
           chk.violation('threads:aggregate-after-restore', f'[{cfg}] aggregate {got}', ctx)
 
 
+def resharded_part(chk):
+  """A checkpoint of a source that is restored and then split again (make(shard=state) with num_threads > 0 shards
+  the restored source; so does a user spreading the rest over workers): Shard.tla's nested round-robin / interval
+  histories with a resume position give the elements that are still due; the pipeline must deliver exactly those."""
+  from ml_metrics._src.chainables import io, transform
+  from harness import lib
+  consts = dict(MaxN=7, MaxK=3, MaxDepth=2, MaxOff=2) if chk.tier != 'thorough' else dict(MaxN=9, MaxK=4, MaxDepth=2, MaxOff=3)
+  lib_path = ['-DTLA-Library=' + os.path.join(common.VERIF, 'spec', 'source')]
+  mc = tlc.run('source', 'Shard', tlc.cfg_text(constants=consts, invariants=['RoundRobinPartition', 'RRClosedForm', 'Partition'], view='View', deadlock=False),
+               coverage=True, timeout=900, java_opts=lib_path)
+  chk.add_tlc(mc, 'Shard/MC (resume then re-shard)')
+  if not mc.ok:
+    chk.machinery_failure(f'Shard.tla violates {mc.error_kind} {mc.error_name}')
+  gen = tlc.run('source', 'Shard', tlc.cfg_text(constants=consts, invariants=['Emit'], deadlock=False), workers=1, timeout=900, java_opts=lib_path)
+  if not gen.ok:
+    chk.machinery_failure(f'Shard export failed: {gen.error_kind} {gen.error_name}')
+  hs = [h for h in gen.histories if any(st.get('op') == 'resume' or st.get('off', 0) > 0 for st in h['steps'])]
+  import random
+  random.Random(chk.seed).shuffle(hs)
+  hs = hs[:250 if chk.tier != 'thorough' else 3000]
+  chk.count('resharded_histories', len(hs))
+  if not hs:
+    chk.machinery_failure('no Shard.tla history with a resume position')
+  for h in hs:
+    n = h['n']
+    data = list(range(n))
+    try:
+      if h['kind'] == 'seq':
+        src = io.SequenceDataSource(data)
+        for st in h['steps']:
+          src = src.shard(st['i'], st['k'], st['off'])
+        due = list(range(h['steps'][-1]['lo'], h['steps'][-1]['hi']))
+        fresh = io.SequenceDataSource(data)
+      else:
+        src = io.ShardedIterable(data)
+        for st in h['steps']:
+          if st['op'] == 'rr':
+            src = src.shard(st['i'], st['k'])
+          else:
+            it = src.iterate()
+            for _ in range(st['c']):
+              next(it)
+            src = io.ShardedIterable(data).from_state(it.state)
+        due = sorted(h['steps'][-1]['elems'])
+        fresh = io.ShardedIterable(data)
+      state = src.state
+      for p in (0, 1, 2, 3):
+        t = transform.TreeTransform.new(name='p', num_threads=p).data_source(fresh).apply(fn=lib.ident)
+        got = sorted(t.make(shard=state).iterate())
+        chk.replayed()
+        if got != due:
+          rep = sorted(set(got) - set(due))
+          what = 'repeats-delivered-elements' if rep else 'loses-elements'
+          chk.violation(f'resharded:{h["kind"]}:{what}:' + ('threads' if p else 'sequential'),
+                        f'source of {n} elements after {h["steps"]} (state {state}) resumed with num_threads={p}: delivered {got}, still due {due}',
+                        dict(kind='checkpoint-resharded', history=h, num_threads=p, got=got, due=due))
+          break
+    except Exception as e:  # pylint: disable=broad-exception-caught
+      chk.violation(f'resharded:{h["kind"]}:exception:{type(e).__name__}', f'{e!r} for {h}', dict(kind='checkpoint-resharded', history=h))
+
+
 def body(chk):
   threaded_part(chk)
+  resharded_part(chk)
   b = _bounds(chk.tier)
   chk.coverage['bounds'] = b
   chk.assumptions += [
